@@ -159,6 +159,26 @@ Theorem C15_no_ts_ancestor_decidable : forall d, no_ts_ancestor_b d = true -> no
 Proof. exact no_ts_ancestor_b_sound. Qed.
 Print Assumptions C15_no_ts_ancestor_decidable.
 
+(* ---- T19: the handler model above IS the code: DigitalRFEventHandler.__init__ (pattern list from the include flags,
+   defaults, ignore_directories) and dispatch (directories, the two path classifications keeping the last matching
+   pattern, the rewriting of a move, int(group("secs")) / int(group("frac")) / timedelta, the window comparisons),
+   regenerated statement by statement from watchdog_drf.py on every run, equal the hand model the theorems of
+   this file are about -- for every flag set, window and event *)
+From DRF Require Import Gen.DispatchGen Proofs.DispatchGenProofs.
+Theorem C15_dispatch_is_the_regenerated_code : forall f st en ev,
+  gen_handler (inc_drf f) (inc_dmd f) (inc_drfp f) (inc_dmdp f) st en ev = dispatch f st en ev.
+Proof. exact handler_regen. Qed.
+Print Assumptions C15_dispatch_is_the_regenerated_code.
+
+Theorem C15_dispatch_body_is_the_regenerated_code : forall rs st en mt ev,
+  gen_dispatch_rs rs st en mt ev = dispatch_rs rs st en mt ev.
+Proof. exact dispatch_rs_regen. Qed.
+Print Assumptions C15_dispatch_body_is_the_regenerated_code.
+
+Theorem C15_event_time_is_the_regenerated_code : forall c, gen_time_of c = time_of c.
+Proof. exact gen_time_of_regen. Qed.
+Print Assumptions C15_event_time_is_the_regenerated_code.
+
 (* ---- T17: the sources this property rests on keep no state outside the objects the model has (no static locals
    or mutable globals in C, no class-level / module-level containers, `global` rebinding or cache decorators in
    Python): the list of such sites, regenerated from the sources on every run, is empty *)
